@@ -3,7 +3,7 @@
 # confirms a seeded change produced in /tmp/wt/<Cxx> with deliverables in /tmp/seeded/<Cxx>:
 # test suite in the patched worktree, demonstration fails with / passes without the change.
 id="$1"; name="${2:-$1}"
-wt=/tmp/wt/$id; src=/tmp/seeded/$id; dst=/verif/seeded/$name
+wt=${SEED_WT:-/tmp/wt/$id}; src=${SEED_SRC:-/tmp/seeded/$id}; dst=/verif/seeded/$name
 [ -f "$src/patch.diff" ] || { echo "no patch.diff"; exit 2; }
 cd "$wt" || exit 2
 # make sure the worktree state equals HEAD + patch.diff
